@@ -239,7 +239,7 @@ def replicate(reps):
             for r in range(reps):
                 c = copy.deepcopy(s)
                 for op in c:
-                    if op.get("op") == "Verify" and isinstance(op.get("tok"), dict):
+                    if op.get("op") in ("Verify", "Forge") and isinstance(op.get("tok"), dict):
                         op["tok"]["rep"] = r
                 yield c
     return expand
